@@ -61,6 +61,12 @@ fn v4(r: &mut Rng) -> u32 {
     }
 }
 fn v6(r: &mut Rng) -> u128 {
+    // IPv4-mapped (::ffff:a.b.c.d) and IPv4-compatible (::a.b.c.d) forms of the IPv4 pool: an IPv6 address is its
+    // 128 bits, never "the IPv4 address inside" (seeded change C14e-2 folded them with to_canonical())
+    if r.chance(1, 6) {
+        let a = v4(r) as u128;
+        return if r.chance(3, 4) { 0xffff_0000_0000u128 | a } else { a };
+    }
     let a = *r.pick(&V6);
     match r.below(4) {
         0 => a ^ (1u128 << r.below(128)),
